@@ -48,14 +48,16 @@ type simLink struct {
 	id   linkID
 	ends [2]*simConn
 	// driver-owned
-	lastAt  [2]time.Duration // delivery time of the last packet scheduled in that direction (in-order delivery)
-	dead    bool             // reset by the driver: packets still in flight are discarded
-	acceptGen int                // instance of the accepting node the connection was made to
+	lastAt    [2]time.Duration // delivery time of the last packet scheduled in that direction (in-order delivery)
+	dead      bool             // reset by the driver: packets still in flight are discarded
+	acceptGen int              // instance of the accepting node the connection was made to
 	accepted  bool
-	rxq     [2][]rxItem          // received, not yet handed to the reader (one message per driver event)
-	pumping [2]bool
-	outSeq  [2]uint64            // packets handed to the network so far, per direction
-	occ     [2]map[uint64]uint64 // how often a content key was sent, per direction
+	rxq       [2][]rxItem // received, not yet handed to the reader (one message per driver event)
+	pumping   [2]bool
+	expect    [2]uint64 // last sequence number delivered, per direction (tcp-faithful configuration)
+	early     [2]map[uint64]*simPkt
+	outSeq    [2]uint64            // packets handed to the network so far, per direction
+	occ       [2]map[uint64]uint64 // how often a content key was sent, per direction
 }
 
 // simPkt is one Write (or the end of the stream of one direction).
